@@ -100,6 +100,7 @@ def run(repo: Repo, chk: Check) -> None:
     hoist(repo, chk)
     dims(repo, chk)
     dim_operand(repo, chk)
+    helper_captures(repo, chk)
 
 
 # --------------------------------------------------------------------------- ChangeForStep
@@ -431,3 +432,38 @@ def dim_operand(repo: Repo, chk: Check) -> None:
             )
     if n == 0:
         raise AnalysisError(f"{f.where}: no `<subview>.sizes[...]` return found")
+
+
+# --------------------------------------------------------------------------- per-op helpers work on their own argument
+def helper_captures(repo: Repo, chk: Check) -> None:
+    chk.rule(
+        "C17.helper-argument",
+        "a nested helper of MoveMemrefDims that takes an op of the matched op's type as its parameter (it is also called on other ops of that "
+        "type, e.g. the dims that size a subview) derives its result from that parameter and never reads the enclosing pattern's matched op",
+        floor=3,
+    )
+    outer = repo.func(REUSE, "MoveMemrefDims.match_and_rewrite")
+    a = outer.node.args
+    params = [*a.posonlyargs, *a.args]
+    if len(params) < 2 or params[1].annotation is None:
+        raise AnalysisError(f"{outer.where}: matched-op parameter without annotation")
+    matched, ann = params[1].arg, ast.unparse(params[1].annotation)
+    n = 0
+    for node in outer.node.body:
+        if not isinstance(node, ast.FunctionDef):
+            continue
+        own = [x for x in [*node.args.posonlyargs, *node.args.args] if x.annotation is not None and ast.unparse(x.annotation) == ann]
+        if not own:
+            continue
+        n += 1
+        shadow = any(x.arg == matched for x in [*node.args.posonlyargs, *node.args.args])
+        # names re-bound inside the helper do not count as reads of the outer variable
+        rebound = {t.id for t in ast.walk(node) if isinstance(t, ast.Name) and isinstance(t.ctx, ast.Store)}
+        reads = [t for t in ast.walk(node) if isinstance(t, ast.Name) and isinstance(t.ctx, ast.Load) and t.id == matched]
+        stale = [] if (shadow or matched in rebound) else reads
+        chk.result(not stale, "C17.helper-argument", f"{outer.key}.<locals>.{node.name}", f"{outer.module.relpath}:{stale[0].lineno if stale else node.lineno}",
+                   f"{node.name}({own[0].arg}) works on its own argument",
+                   f"{node.name}({own[0].arg}: {ann}) reads the enclosing pattern's matched op `{matched}` (line {stale[0].lineno if stale else 0}): when the helper is called on another "
+                   f"{ann} (recursively, for the dims that size a subview) it mixes that op with the matched one")
+    if n == 0:
+        raise AnalysisError(f"{outer.where}: no nested helper taking a {ann}")
